@@ -668,7 +668,12 @@ META = {
                  "(keys in one or two databases); afterwards the victim is in no cache, not in the volatile index and not in the "
                  "dataset, every surviving key is unchanged, the volatile index and the volatile caches hold only keys with a "
                  "deadline, usage is back under the limit after a storing command unless nothing evictable is left, the figure "
-                 "equals MemOf of what is left, and the server is still answering.",
+                 "equals MemOf of what is left, and the server is still answering.  \"Least frequently / recently used\" is "
+                 "anchored in the history: after every command the driver asks the server for the access count (OBJECTFREQ) and "
+                 "the last access (OBJECTIDLETIME) of every key of every database, the spec carries both from step to step and "
+                 "requires that keys no command names keep them, that a read gains a count / a fresh stamp, that a key enters a "
+                 "cache only through a command naming it, that the caches hold only keys that are there, and that the counts "
+                 "and stamps a victim was compared with at the moment of its eviction are these.",
         "design_ref": "DESIGN.md §12.2 C08",
         "note": "Trusted: TLC, harness, verif points (they pass the cache object to the recorder at evict.pre). Open finding "
                 "LruEvictsNewest (order pinned by Test_CacheLRU).",
